@@ -12,6 +12,7 @@ From ZV.Common Require Import Base.
 From ZV.C08 Require Import Model ProofsInv ProofsStep ProofsRefute ProofsRun.
 From ZV.C08 Require Import ModelFixedCap ProofsFixedCapRun Cases.
 From ZV.C08 Require Import ModelStats ModelVariants ProofsTagged2.
+From ZV.C08 Require Import ModelSecure ProofsSecureInv ProofsSecureRun.
 Open Scope N_scope.
 
 (* each block is owned by at most one thread at a time, under every interleaving *)
@@ -437,3 +438,91 @@ Check zero_after_push_refuted :
     all_idle s = true /\ 8 < bump s /\
     walk 8 (tail zlate_cfg) (nxt s) (head s) = Some [72] /\ all_holds s = [].
 Print Assumptions zero_after_push_refuted.
+
+(* ==========================================================================================
+   SecureMemoryPool (src/memory/secure_pool.rs): per-thread caches in front of the shared Treiber
+   stack, next_generation, the active-allocation table, the counters (ModelSecure.v).  c : scfg
+   gives local_cache_size and the behaviour of the system allocator for stack nodes:
+   s_reuse c = false - a node address is never handed out twice while the pool lives;
+   s_reuse c = true - any address that is currently free (what malloc does).  The positive
+   theorems are for the first machine, over any number of threads and all schedules; the
+   refutation is the same machine with the second allocator (findings secure_stack_aba /
+   secure_stack_use_after_free, next to treiber_aba_refuted / treiber_uaf_refuted above).
+   ========================================================================================== *)
+
+(* the shared stack as the code traverses it is finite, consists of live nodes and has no repetition, and every
+   chunk ever created (serial below snew) occurs exactly once among the threads' hands, their caches, the pushes in
+   flight and that stack; nothing else occurs anywhere: no chunk is lost, none is available twice *)
+Theorem secure_concurrent_no_chunk_lost :
+  forall c, s_reuse c = false -> forall n sc,
+  let s := srun c (sinit n) sc in
+  exists stack, swalk (length stack) s (shead s) = Some stack /\ NoDup stack /\
+    forall x, (occ x (concat (map splaces (sthr s)) ++ map (fun a => fst (sdata s a)) stack) =
+               b2n (N.ltb x (snew s)))%nat.
+Proof. exact secure_no_chunk_lost_proof. Qed.
+Check secure_concurrent_no_chunk_lost :
+  forall c, s_reuse c = false -> forall n sc,
+  let s := srun c (sinit n) sc in
+  exists stack, swalk (length stack) s (shead s) = Some stack /\ NoDup stack /\
+    forall x, (occ x (concat (map splaces (sthr s)) ++ map (fun a => fst (sdata s a)) stack) =
+               b2n (N.ltb x (snew s)))%nat.
+Print Assumptions secure_concurrent_no_chunk_lost.
+
+(* no chunk is in the hands of two threads *)
+Theorem secure_concurrent_no_double_owner :
+  forall c, s_reuse c = false -> forall n sc,
+  let s := srun c (sinit n) sc in
+  forall t1 t2 l1 l2 ch1 ch2, t1 <> t2 ->
+    nth_error (sthr s) t1 = Some l1 -> nth_error (sthr s) t2 = Some l2 ->
+    In ch1 (sheld l1) -> In ch2 (sheld l2) -> fst ch1 <> fst ch2.
+Proof. exact secure_no_double_owner_proof. Qed.
+Check secure_concurrent_no_double_owner :
+  forall c, s_reuse c = false -> forall n sc,
+  let s := srun c (sinit n) sc in
+  forall t1 t2 l1 l2 ch1 ch2, t1 <> t2 ->
+    nth_error (sthr s) t1 = Some l1 -> nth_error (sthr s) t2 = Some l2 ->
+    In ch1 (sheld l1) -> In ch2 (sheld l2) -> fst ch1 <> fst ch2.
+Print Assumptions secure_concurrent_no_double_owner.
+
+(* the active-allocation table knows every chunk in a thread's hands with its generation, so a guard drop never
+   takes the double-free error path (which would drop the chunk) *)
+Theorem secure_concurrent_free_finds_its_chunk :
+  forall c, s_reuse c = false -> forall n sc,
+  let s := srun c (sinit n) sc in
+  forall t l ch, nth_error (sthr s) t = Some l -> In ch (sheld l) -> sact s (fst ch) = Some (snd ch).
+Proof. exact secure_held_in_table_proof. Qed.
+Check secure_concurrent_free_finds_its_chunk :
+  forall c, s_reuse c = false -> forall n sc,
+  let s := srun c (sinit n) sc in
+  forall t l ch, nth_error (sthr s) t = Some l -> In ch (sheld l) -> sact s (fst ch) = Some (snd ch).
+Print Assumptions secure_concurrent_free_finds_its_chunk.
+
+(* once all threads are done pool_hits + pool_misses = alloc_count, local_cache_hits + cross_thread_steals =
+   pool_hits, and no double free was reported *)
+Theorem secure_counters_at_quiescence :
+  forall c, s_reuse c = false -> forall n sc,
+  let s := srun c (sinit n) sc in squiescent s ->
+  c_hits (scnt s) + c_misses (scnt s) = c_alloc (scnt s) /\
+  c_local (scnt s) + c_steals (scnt s) = c_hits (scnt s) /\ c_dbl (scnt s) = 0.
+Proof. exact secure_counters_proof. Qed.
+Check secure_counters_at_quiescence :
+  forall c, s_reuse c = false -> forall n sc,
+  let s := srun c (sinit n) sc in squiescent s ->
+  c_hits (scnt s) + c_misses (scnt s) = c_alloc (scnt s) /\
+  c_local (scnt s) + c_steals (scnt s) = c_hits (scnt s) /\ c_dbl (scnt s) = 0.
+Print Assumptions secure_counters_at_quiescence.
+
+(* with an allocator that recycles node addresses (malloc) the same machine hands chunk 0 to two threads: the
+   stale compare-exchange of a pop succeeds on a recycled address and installs a freed node as head *)
+Theorem secure_concurrent_reuse_refuted :
+  exists sc l0 l1 ch,
+    let s := srun sreuse_cfg (sinit 2) sc in
+    nth_error (sthr s) 0 = Some l0 /\ nth_error (sthr s) 1 = Some l1 /\
+    In ch (sheld l0) /\ In ch (sheld l1).
+Proof. exact secure_reuse_refuted_proof. Qed.
+Check secure_concurrent_reuse_refuted :
+  exists sc l0 l1 ch,
+    let s := srun sreuse_cfg (sinit 2) sc in
+    nth_error (sthr s) 0 = Some l0 /\ nth_error (sthr s) 1 = Some l1 /\
+    In ch (sheld l0) /\ In ch (sheld l1).
+Print Assumptions secure_concurrent_reuse_refuted.
